@@ -173,14 +173,14 @@ func genInputs(kind string, seed int64, n int) []N {
 		// faults provoked in every execution context a script can create: spawned threads (three spawn forms,
 		// nested), callbacks inside builtins, deferred functions, error handlers, default-parameter expressions
 		faults := []string{
-			"over(0)",                      // frame stack overflow (a recovered Go panic on the main thread)
-			"[1, 2][5]",                    // ordinary run-time error
-			"error(\"boom\")",              // raised error value
-			"1 / 0",                        // division by zero
-			"nil.x",                        // attribute of nil
+			"over(0)",                            // frame stack overflow (a recovered Go panic on the main thread)
+			"[1, 2][5]",                          // ordinary run-time error
+			"error(\"boom\")",                    // raised error value
+			"1 / 0",                              // division by zero
+			"nil.x",                              // attribute of nil
 			"cl := chan()\nclose(cl)\nclose(cl)", // close of a closed channel
 			"cl := chan()\nclose(cl)\ncl <- 1",   // send on a closed channel
-			"over.spawn(0).wait()",         // a thread inside this context
+			"over.spawn(0).wait()",               // a thread inside this context
 			"string(over)",
 			"[over].map(func(f) { f(0) })",
 		}
